@@ -87,7 +87,14 @@ var AnalyzerIfArity = &Analyzer{
 	Severity: SeverityError,
 	Doc:      "Check that `if` has exactly 3 arguments: condition, then-branch, else-branch.\n\nA missing else branch is a common source of subtle nil-return bugs. Extra arguments are silently ignored at parse time but indicate a structural error.",
 	Run: func(pass *Pass) error {
+		// The same exclusions as builtin-arity: a list that is syntax rather
+		// than a call (a formals list `(if then else)`, a binding entry, a
+		// cond clause) is not an `if` form.
+		skipNodes := aritySkipNodes(pass.Exprs)
 		WalkSExprs(pass.Exprs, func(sexpr *lisp.LVal, depth int) {
+			if skipNodes[sexpr] {
+				return
+			}
 			if HeadSymbol(sexpr) != "if" {
 				return
 			}
